@@ -40,14 +40,15 @@ func init() {
 		ID: "C15", Mode: "c15",
 		Families: []*ProgCheck{{Family: "F-types", Synth: typesSupported, Bound: map[string]int{"quick": 1, "thorough": 2}}},
 		Targets:  []string{prog.TGounions, prog.TRanddata},
-		// deviations in the random answers: quick 2 - program deviations; thorough min(2, 3 - program
-		// deviations) (3 answers off the default on ~900 draw alternatives per program is 10^8 calls)
+		// deviations in the random answers: 2 on the scaffold, 1 on the programs at 1 deviation and, in the
+		// thorough tier, 1 on the programs at 2 deviations (2 answers off the default on ~1000 draw
+		// alternatives is ~5.10^5 calls per program: affordable once, not 160 times)
 		Budget: func(tier string, cost int) int {
-			if tier == "thorough" {
-				if cost == 0 {
-					return 2
-				}
-				return 3 - cost
+			if cost == 0 {
+				return 2
+			}
+			if tier == "thorough" && cost == 2 {
+				return 1
 			}
 			return 2 - cost
 		},
